@@ -540,11 +540,20 @@ def run(ctx, tier, seed, shard, nshards):
         interpreter_modes(ctx)
         no_init_classes(ctx)
         overlapping_calls(ctx)
+        # callers in copied contexts (tasks / threads) while another call of the same function is inside its checks:
+        # "skipped only for re-entrant calls ... in the current thread/task" - C01's family, judged the same way
+        from vf.props import c01
+
+        c01.concurrent_history(ctx)
 
 
 def replay(ctx, case):
     import sys
 
+    if case.get("directed") == "concurrent-history":
+        from vf.props import c01
+
+        return c01.concurrent_history(ctx)
     if "names" in case and "schedule" in case:
         from vf.props import c11
 
